@@ -3,7 +3,7 @@
    strictly increasing and in range, rows and columns agree, and the entry pool is exactly
    accounted for (blocks * block size = free entries + live entries). *)
 From Coq Require Import Arith List Bool.
-From OFV Require Import ListAux Sparse SparseProofs SparseOpt SparseOptProofs SparseChk.
+From OFV Require Import ListAux Sparse SparseProofs SparseOpt SparseOptProofs SparseChk SparseId SparseIdProofs.
 Import ListNotations.
 
 Theorem sparse_allocate_empty : forall r c, WF (s_allocate r c) /\ forall i j, has (s_allocate r c) i j = false.
@@ -88,6 +88,33 @@ Proof. exact traversals_sorted. Qed.
 Theorem sparse_pool_accounting : forall m, WF m -> nblocks m * BLOCK = nfree m + total m.
 Proof. exact pool_accounting. Qed.
 
+(* ---- the entry pool at the level of entry identities (SparseId.v): "no operation touches freed memory, and freeing
+   the matrix releases everything".  Every entry of the matrix and of the free list is named by (block, slot) exactly as
+   of_alloc_entry hands them out; the names the compiled C uses are compared with the model's after every operation.
+   In every state reachable from of_mod2sparse_allocate by insert / delete / clear / copy / copy-rows / copy-columns /
+   copy-filled-matrix: exactly the matrix's entries are named, no slot is in use twice or both in use and free, EVERY
+   entry in use or on the free list lies in a block that has not been released, every slot of every live block is in use
+   or free, and Sparse.v's two counters are the lengths of the block list and of the free list. *)
+Theorem entry_pool_invariant_in_every_reachable_state : forall m, reach m -> WF (sm m) /\ PInv m.
+Proof. exact reach_inv. Qed.
+Theorem no_entry_in_a_released_block : forall m, PInv m -> forall k e, id_of (ids m) k = Some e -> In (fst e) (pblocks (pl m)).
+Proof. exact no_dangling_entry. Qed.
+Theorem free_list_stays_inside_live_blocks : forall m, PInv m -> forall e, In e (pfree (pl m)) -> In (fst e) (pblocks (pl m)).
+Proof. exact free_list_in_live_blocks. Qed.
+Theorem an_entry_handed_out_is_not_in_use : forall m, PInv m -> let '(p', e) := p_take (pl m) in ~ In e (map snd (ids m)).
+Proof. exact take_is_fresh. Qed.
+Theorem two_entries_never_share_a_slot : forall m, PInv m -> forall k1 k2 e, id_of (ids m) k1 = Some e -> id_of (ids m) k2 = Some e -> k1 = k2.
+Proof. exact names_distinct. Qed.
+Theorem clear_releases_every_block : forall m, pblocks (pl (i_clear m)) = [] /\ pfree (pl (i_clear m)) = [] /\ ids (i_clear m) = [].
+Proof. exact clear_releases_everything. Qed.
+(* the defect repaired in 1d8dcbc (clear released the blocks but kept the free list) is exactly a violation of this invariant *)
+Theorem the_pre_fix_clear_left_a_dangling_free_list :
+  exists m, reach m /\ PInv m /\ pfree (pl m) <> [] /\
+            ~ (forall e, In e (pfree (p_clear_buggy (pl m))) -> In (fst e) (pblocks (p_clear_buggy (pl m)))).
+Proof. exact buggy_clear_example. Qed.
+
+Print Assumptions entry_pool_invariant_in_every_reachable_state.
+Print Assumptions the_pre_fix_clear_left_a_dangling_free_list.
 Print Assumptions sparse_insert_adds_exactly_one.
 Print Assumptions sparse_find_is_membership.
 Print Assumptions sparse_copy_is_the_same_set.
